@@ -131,6 +131,11 @@ Lemma merge_slot_nf : forall f es ls, slot_all mq ls -> nf (merge_slot (merge_me
 Proof.
   intros f es ls HQ. unfold merge_slot.
   destruct (f_label f); try (nf_simple; fail).
+  - (* required: only a sub-message is merged *)
+    destruct (f_type f); try (nf_simple; fail).
+    destruct es as [eh ev| |]; destruct ls as [lh lv| |]; try (nf_simple; fail).
+    cbn [slot_all] in HQ.
+    destruct ev as [w| | |[em|]]; destruct lv as [w2| | |[lm|]]; nf_cases; apply (HQ lm eq_refl).
   - (* optional *)
     destruct es as [eh ev| |]; destruct ls as [lh lv| |]; try (nf_simple; fail).
     cbn [slot_all] in HQ.
